@@ -79,7 +79,7 @@ CHECKS = {
         design="4/C20"),
     "C18": dict(
         text="Coq theorems C18_no_prefix_no_cors (every request whose path does not begin with /token - any method, path, Access-Control-Request-* headers, with or without a "
-             "profile - gets no Access-Control-* header and only the landing page (GET /) or an empty 404), C18_prefix_characterised, C18_prefix_dispatch and C18_token_shape "
+             "profile - gets no Access-Control-* header and only the landing page (GET /) or an empty 404), C18_prefix_characterised, C18_prefix_dispatch and C18_token_shape, C18_token_injective (different 24-byte strings give different tokens) "
              "(24 bytes, regenerated from the source, encode to 39 characters of the 32-symbol alphabet; the encoder model reproduces the crate's own test vector). "
              "Tied to the real server: `samply load` is started several times, ~600 raw HTTP requests per run are classified and checker + model are evaluated in Coq; tokens of all runs are distinct.",
         note="Trusted: Coq kernel; hyper's parsing (uri().path() is the raw path); Python raw-socket client. Not provable: unpredictability of the token (entropy of rand::rng()); "
